@@ -276,6 +276,7 @@ fn print_case(sc: &Scenario, rec: &RunRecord, pubkey: &[u8]) {
     let mut flags = 0;
     if !rec.framed { flags |= 1; }
     if rec.out_garbled { flags |= 2; }
+    if sc.write_script.iter().any(|w| matches!(w, WriteResp::Pending)) { flags |= 4; }
     let biggest_in = rec.raw_in.iter().map(|x| x.1.len()).max().unwrap_or(0);
     let mut segs: Vec<String> = rec.raw_in.iter().map(|(t, b)| format!("({}, Some {})", t, g_hex(b))).collect();
     if let Some(t) = rec.eof_at { segs.push(format!("({}, None)", t)); }
@@ -448,6 +449,7 @@ fn main() {
                         p.auth_payload = payload;
                         let mut ads = base_ads(&mut r);
                         if r.chance(1, 4) { ads.auth.0 = Err(()); }
+                        if let Ok(d) = &mut ads.discover.0 { if d.is_empty() && r.chance(3, 4) { d.push(rnd_target(&mut r, 0)); } }
                         let huge = note.ends_with("huge-expiry");
                         let mut sc = build("C02", &mut r, &p, ads, secret, client, note);
                         if huge { sc.expiry = u64::MAX - 5; }
@@ -536,8 +538,8 @@ fn main() {
                 // two-connection histories: authenticate + get transferred, then come back with what was stored
                 for i in 0..(12 * scale) {
                     let expiry: u64 = 21_600;
-                    let secret = match i % 4 { 0 => None, 1 => Some(r.bytes(1)), 2 => Some(r.bytes(64)), _ => Some(r.bytes(16)) };
-                    let client = rnd_sa(&mut r);
+                    let secret = match i % 5 { 0 => None, 1 => Some(r.bytes(1)), 2 => Some(r.bytes(64)), 3 => Some(r.bytes(200)), _ => Some(r.bytes(16)) };
+                    let client = if i % 6 == 5 { SocketAddr::new("::ffff:203.0.113.7".parse().unwrap(), 51_000) } else { rnd_sa(&mut r) };
                     let mut p1 = base_params(&mut r, Intent::Login);
                     p1.session_payload = match i % 3 { 0 => None, 1 => Some(b"null".to_vec()),
                         _ => Some(serde_json::to_vec(&SessionCookie { id: Uuid::from_u128(77), server_address: "old.example".into(), server_port: 1, trace_id: None }).unwrap()) };
@@ -672,6 +674,7 @@ fn main() {
                     }
                     sc.acts = acts;
                     if i % 3 == 1 { sc.write_script = (0..40).map(|k| if k % 3 == 0 { WriteResp::Accept(1) } else { WriteResp::Accept(7) }).collect(); }
+                    if i % 3 == 2 { sc.write_script = (0..60).map(|k| match k % 4 { 0 => WriteResp::Pending, 1 => WriteResp::Accept(3), 2 => WriteResp::Pending, _ => WriteResp::Accept(usize::MAX) }).collect(); }
                     let rec1 = run_scenario(&sc, &mut Rng(seed_a ^ 1));
                     print_case(&sc, &rec1, &pubkey);
                     let ids = |rec: &RunRecord| g_list(&rec.sent.iter().map(|x| format!("{}", g_z(x.1))).collect::<Vec<_>>());
